@@ -75,6 +75,10 @@ class Report:
     def violation(self, rid: str, key: str, msg: str, detail: Any = None):
         """key identifies the finding by rule + construct (never by line number)."""
         full_key = f"{rid}|{key}"
+        if "Unknown(" in msg:
+            # a value the interpreter could not model took part in the verdict: that is an analysis gap, not a finding
+            self.analysis_errors.append(f"{full_key}: undecided (value outside the interpreted fragment): {msg[:300]}")
+            return
         for k in self._known:
             if k["key"] == full_key:
                 if not any(h["key"] == full_key for h in self.known_hits):
